@@ -66,7 +66,7 @@ def run(prop, tier, seed):
             n = "C02_td.cfg"
             g = [{"module": "MC_TimeDyn.tla", "cfg": n, "workers": 8, "simulate": 300 if quick else 5000, "depth": 12, "seed": seed,
                   "extra_defs": {n: timedyn.cfg(8, 2, True)}}]
-            stages.append(pipeline.replay_stage(g, "timedyn", {"gens": {"1": "A", "2": "B", "3": "A", "4": "K", "5": "C"}, "insts": {"1": 1, "2": 1, "3": 2, "4": 2, "5": 0},
+            stages.append(pipeline.replay_stage(g, "timedyn", {"gens": {"1": "A", "2": "B", "3": "A", "4": "K", "5": "C", "6": "N"}, "insts": {"1": 1, "2": 1, "3": 2, "4": 2, "5": 0, "6": 1},
                                                                "nontrivial": "rejected"}, scratch, 900, name="replay_dynamic_generators"))
         th.join()
     if prop == "C08":
